@@ -752,8 +752,120 @@ fn split_probe(args: &Args, report: &mut Report) {
     REAPER.wait();
 }
 
+/// Probe for C04: the generation recovery has to retire fills its blocks EXACTLY (on-disk size a multiple of the
+/// block size, 1-3 blocks), and a live record sits in the very next block. The stale duplicate is produced by
+/// crashing between "replacement durable" and "old generation retired"; every event boundary of that flush is a
+/// crash point, each image goes through the idempotence / restartability / live-block checks of the idem mode.
+fn aligned_probe(args: &Args, report: &mut Report) {
+    use crate::values::Tag;
+    let rounds = args.num("rounds", 6);
+    let scratch = storeutil::Scratch(storeutil::scratch_dir("aligned"));
+    let dir = scratch.0.clone();
+    for round in 0..rounds {
+        let rid = round * args.num("shards", 1).max(1) + args.num("shard", 0);
+        let mut rng = Rng::derive(args.seed, rid, 0xa119);
+        let version = [3u32, 2, 1, 3][(rid % 4) as usize];
+        let mut cfg = Cfg::disk(16 + 64);
+        cfg.version = version;
+        cfg.cpus = 2;
+        cfg.cache = false;
+        cfg.sync_io = rng.chance(1, 2);
+        let path = format!("{dir}/aligned-{rid}.feox");
+        let _ = std::fs::remove_file(&path);
+        storeutil::ensure_device(&cfg, &path);
+        let base = std::fs::read(&path).ok().filter(|b| b.len() == cfg.blocks as usize * 4096).unwrap_or_else(|| vec![0u8; cfg.blocks as usize * 4096]);
+        let mon = hub().watch(&path);
+        let store = match storeutil::open(&cfg, Some(&path)) {
+            Ok(s) => s,
+            Err(e) => {
+                report.inconclusive.push(format!("aligned probe: open failed {e:?}"));
+                continue;
+            }
+        };
+        let replay = json!({"engine": "crash", "mode": "aligned", "seed": args.seed, "round": rid, "config": cfg.label()});
+        let ka = b"aligned-a".to_vec();
+        let kb = b"behind-b".to_vec();
+        let blocks = rng.range(1, 3) as usize;
+        let hl = indep::header_len(version, ka.len());
+        let va = values::make(Tag { key_id: 1, writer: 0, seq: 1 }, blocks * 4096 - hl);
+        let vb = values::make(Tag { key_id: 2, writer: 0, seq: 1 }, rng.range(30, 6000) as usize);
+        // one at a time so that B is allocated right behind A
+        let ok = store.insert(&ka, &va).is_ok() && store.flush().is_ok() && store.insert(&kb, &vb).is_ok() && store.flush().is_ok();
+        let (sa, sb) = (store.verif_entry(&ka).map(|e| e.sector).unwrap_or(0), store.verif_entry(&kb).map(|e| e.sector).unwrap_or(0));
+        if !ok || sa == 0 || sb != sa + blocks as u64 {
+            report.inconclusive.push(format!("aligned probe: layout not as intended (a at {sa}+{blocks}, b at {sb})"));
+            continue;
+        }
+        let before = mon.len();
+        let na = values::make(Tag { key_id: 1, writer: 0, seq: 2 }, rng.range(30, 9000) as usize);
+        let _ = store.insert(&ka, &na);
+        let _ = store.flush();
+        let events = mon.events();
+        hub().unwatch(&mon);
+        drop(store);
+        let w = Workload { cfg: cfg.clone(), seed: args.seed, index: rid, base: base.clone(), events: events.clone(), hist: BTreeMap::new(), acks: Vec::new(), open_end: 0, log: Vec::new(), uring: false, trace_problem: None };
+        let mut with_dup = 0u64;
+        for cut in before..=events.len() {
+            for keep_all in [false, true] {
+                let keep = if keep_all { crashimg::volatile(&events, cut) } else { vec![] };
+                if keep_all && keep.is_empty() {
+                    continue;
+                }
+                let recipe = Recipe { cut, keep, tear: None };
+                let image = crashimg::build(&base, &events, &recipe);
+                let dup = indep::scan(&image, None, true).map(|s| s.heads.len() > s.records.len()).unwrap_or(false);
+                if dup {
+                    with_dup += 1;
+                }
+                let ipath = format!("{dir}/aligned-{rid}-{cut}-{}.img", keep_all as u8);
+                report.evaluations += 1;
+                // B was acknowledged before the update began: it must be there, intact, after every recovery
+                match recover_image(&image, &ipath, version, false, false) {
+                    Ok((rec, _)) => match rec.dump.get(kb.as_slice()).map(|d| d.value.clone()) {
+                        Some(Ok(v)) if v == vb => {}
+                        other => {
+                            let mut r = replay.clone();
+                            r["events_before_cut"] = json!(crashimg::digest(&events, cut.saturating_sub(30), cut));
+                            report.violation("aligned:neighbour-damaged", format!("the record right behind a block-aligned generation ({blocks} block(s) at {sa}) that recovery had to retire recovers as {:?}", other.map(|r| r.map(|v| values::describe(&v)))), r);
+                        }
+                    },
+                    Err(_) => {}
+                }
+                if !dup {
+                    let _ = std::fs::remove_file(&ipath);
+                    continue;
+                }
+                if let Err((sig, msg)) = idem_check(&w, &recipe, &image, &ipath, report, args.seed) {
+                    let mut r = replay.clone();
+                    r["events_before_cut"] = json!(crashimg::digest(&events, cut.saturating_sub(30), cut));
+                    report.violation(format!("aligned:{sig}"), format!("aligned generation of {blocks} block(s) at {sa}, live neighbour at {sb}, cut {cut}: {msg}"), r);
+                }
+                let _ = std::fs::remove_file(&ipath);
+                if report.violations.len() >= 3 {
+                    break;
+                }
+            }
+        }
+        report.count("aligned_rounds", 1);
+        report.count("aligned_images_with_a_stale_duplicate", with_dup);
+        if with_dup > 0 {
+            report.nontrivial.insert(fnv_mix(fnv_mix(version as u64, blocks as u64), with_dup));
+        }
+        let _ = std::fs::remove_file(&path);
+    }
+    REAPER.wait();
+}
+
 pub fn run(args: &Args) -> Report {
     let mode = args.get("mode").unwrap_or("all").to_string(); // ack | all | idem
+    if mode == "aligned" {
+        let mut report = Report::new(
+            "crash",
+            "probe: a generation whose on-disk size is an exact multiple of the block size (1-3 blocks, v1/v2/v3) is superseded; every event boundary of the superseding flush is a crash point (durable prefix and as-is image); where the image holds the stale duplicate, recovery has to retire it - the live record in the very next block must survive intact, recovery's writes must stay off live extents, repeated opens and crashes inside the repair must reproduce the first recovery's contents. distinct = (format version, blocks, images holding a stale duplicate)",
+        );
+        aligned_probe(args, &mut report);
+        return report;
+    }
     if mode == "split" {
         let mut report = Report::new(
             "crash",
